@@ -69,7 +69,36 @@ fn basis_event(key: &str, k: usize, t: &Vec<f64>, xs: &[f64]) -> Value {
         }
         vec_rev.push(Value::Array(per_m));
     }
-    json!({"key": key, "op": "basis", "k": k, "t": fvec(t), "xs": fvec(xs), "vals": vals, "m0_via_deriv": via_d, "dvals": dvals, "vec_rev": vec_rev, "o": o})
+    // the collocation matrix on MORE sites than functions (all the in-domain points, ascending; value rows at both ends):
+    // entry (j, i) is B_i at site j
+    let mut sites: Vec<f64> = xs.iter().cloned().filter(|x| *x >= t[0] && *x <= t[t.len() - 1]).collect();
+    sites.sort_by(|a, b| a.partial_cmp(b).unwrap());
+    sites.dedup();
+    let matrix = match guard(|| sp.bsplmatrix(&sites, 0, 0)) {
+        Outcome::Ok(mx) => Value::Array((0..mx.shape()[0]).map(|j| fvec(&(0..mx.shape()[1]).map(|i| mx[[j, i]]).collect::<Vec<f64>>())).collect()),
+        Outcome::Panic(_) => { o = "panic"; json!([]) }
+    };
+    // each basis function as the Python-facing spline class sees it: the spline whose only non-zero coefficient is c_i = 1,
+    // through the three single-point derivative methods with a FLOAT abscissa
+    let mut pyvals = vec![];
+    for i in 0..n {
+        let mut c = vec![0.0; n];
+        c[i] = 1.0;
+        let psp = spy::f64_new(k, t.clone(), Some(c));
+        for (q, x) in xs.iter().enumerate().filter(|(q, _)| q % 3 == 0) {
+            for m in 0..=2usize {
+                for f in ["ppdnev_single", "ppdnev_single_dual", "ppdnev_single_dual2"] {
+                    match guard(|| spy::f64_eval(&psp, f, Number::F64(*x), m)) {
+                        Outcome::Ok(Ok(v)) => pyvals.push(json!({"fn": f, "i": i, "m": m, "q": q + 1, "res": number_json(&v)})),
+                        Outcome::Ok(Err(e)) => pyvals.push(json!({"fn": f, "i": i, "m": m, "q": q + 1, "res": {"k": "E", "e": e}})),
+                        Outcome::Panic(_) => o = "panic",
+                    }
+                }
+            }
+        }
+    }
+    json!({"key": key, "op": "basis", "k": k, "t": fvec(t), "xs": fvec(xs), "vals": vals, "m0_via_deriv": via_d, "dvals": dvals, "vec_rev": vec_rev,
+           "sites": fvec(&sites), "matrix": matrix, "pyvals": pyvals, "o": o})
 }
 
 /// TLC-generated knot vectors (MC_BSpline.CaseSeq): k, t (integers as doubles), nx quarter points
